@@ -18,7 +18,8 @@ pub const LUA_BUDGET: u64 = 4_000_000;
 pub enum Verdict {
     Ok { nontrivial: bool },
     Skip(&'static str),
-    Fail { sig: String, detail: String, preds: Vec<String>, expected_out: Vec<String>, expected_end: String },
+    /// `alternatives`: further acceptable (output, end) pairs (one per evaluation order of the assignment forms)
+    Fail { sig: String, detail: String, preds: Vec<String>, expected_out: Vec<String>, expected_end: String, alternatives: Vec<(Vec<String>, String)> },
 }
 
 pub struct Checked {
@@ -186,17 +187,19 @@ pub fn check_semantics(p: &mut Program) -> Checked {
     let printed = print_program(p);
     let text = printed.text.clone();
     let (rt, ambiguous) = refsylt::reference(p, REF_BUDGET);
-    if ambiguous {
-        return Checked { verdict: Verdict::Skip("assignment-order-ambiguous"), text, lua: None };
-    }
-    if rt.unstable_text {
-        return Checked { verdict: Verdict::Skip("prints-text-not-fixed-by-the-language"), text, lua: None };
-    }
-    match &rt.end {
-        End::Budget => return Checked { verdict: Verdict::Skip("reference-budget"), text, lua: None },
-        End::TagError(_) | End::ScopeError(_) => return Checked { verdict: Verdict::Skip("reference-says-ill-typed"), text, lua: None },
-        End::Unsupported(_) | End::FlowEscape => return Checked { verdict: Verdict::Skip("reference-unsupported"), text, lua: None },
-        _ => {}
+    // the language does not fix whether an assignment reads its target before or after its right-hand side: when
+    // that matters, the emitted code has to behave like one choice of order per assignment form
+    let candidates: Vec<refsylt::Trace> = if ambiguous { refsylt::reference_all_orders(p, REF_BUDGET) } else { vec![rt.clone()] };
+    for rt in &candidates {
+        if rt.unstable_text {
+            return Checked { verdict: Verdict::Skip("prints-text-not-fixed-by-the-language"), text, lua: None };
+        }
+        match &rt.end {
+            End::Budget => return Checked { verdict: Verdict::Skip("reference-budget"), text, lua: None },
+            End::TagError(_) | End::ScopeError(_) => return Checked { verdict: Verdict::Skip("reference-says-ill-typed"), text, lua: None },
+            End::Unsupported(_) | End::FlowEscape => return Checked { verdict: Verdict::Skip("reference-unsupported"), text, lua: None },
+            _ => {}
+        }
     }
     let out = compile_src(&text);
     let lua = match out {
@@ -204,18 +207,33 @@ pub fn check_semantics(p: &mut Program) -> Checked {
         Outcome::Err { .. } => return Checked { verdict: Verdict::Skip("rejected-by-compiler"), text, lua: None },
         Outcome::Panic { .. } => return Checked { verdict: Verdict::Skip("compiler-panic"), text, lua: None },
     };
-    let want_end = expected_end(&rt.end, &printed.unreachable_lines);
     let lr = run_lua(&lua, LUA_BUDGET);
     if matches!(lr.end, LuaEnd::Budget | LuaEnd::StackOverflow) {
         return Checked { verdict: Verdict::Skip("lua-budget"), text, lua: Some(lua) };
     }
-    let nontrivial = !rt.out.is_empty() || rt.end != End::Done;
-    // a printed value may contain line breaks: compare line by line
-    let ref_lines: Vec<String> = rt.out.iter().flat_map(|x| x.split('\n').map(|l| l.to_string()).collect::<Vec<_>>()).collect();
+    let lines_of = |rt: &refsylt::Trace| -> Vec<String> { rt.out.iter().flat_map(|x| x.split('\n').map(|l| l.to_string()).collect::<Vec<_>>()).collect() };
+    for rt in &candidates {
+        let want_end = expected_end(&rt.end, &printed.unreachable_lines);
+        // a printed value may contain line breaks: compare line by line
+        if lr.out == lines_of(rt) && Some(&lr.end) == want_end.as_ref() {
+            let nontrivial = !rt.out.is_empty() || rt.end != End::Done;
+            return Checked { verdict: Verdict::Ok { nontrivial }, text, lua: Some(lua) };
+        }
+    }
+    let want_end = expected_end(&rt.end, &printed.unreachable_lines);
+    let ref_lines = lines_of(&rt);
     let same_out = lr.out == ref_lines;
-    let same_end = Some(&lr.end) == want_end.as_ref();
-    if same_out && same_end {
-        return Checked { verdict: Verdict::Ok { nontrivial }, text, lua: Some(lua) };
+    if ambiguous {
+        let detail = format!(
+            "program:\n{}\nthe order in which an assignment reads its target and evaluates its right-hand side matters here; no choice of order per assignment form gives what the emitted Lua does\nreference traces ({}):\n{}\nlua:       out={:?} end={:?}",
+            text,
+            candidates.len(),
+            candidates.iter().map(|t| format!("  out={:?} end={:?}", t.out, t.end)).collect::<Vec<_>>().join("\n"),
+            lr.out,
+            lr.end
+        );
+        let preds = structural_preds(p, Some(&lua));
+        return Checked { verdict: Verdict::Fail { sig: "matches-no-evaluation-order-of-assignments".into(), detail, preds, expected_out: ref_lines.clone(), expected_end: format!("{:?}", want_end), alternatives: candidates.iter().map(|t| (lines_of(t), format!("{:?}", expected_end(&t.end, &printed.unreachable_lines)))).collect() }, text, lua: Some(lua) };
     }
     let sig = match &lr.end {
         LuaEnd::LoadError(m) => format!("load-error: {}", m.split(':').last().unwrap_or("").trim().chars().take(60).collect::<String>()),
@@ -234,7 +252,7 @@ pub fn check_semantics(p: &mut Program) -> Checked {
         text, rt.out, rt.end, lr.out, lr.end
     );
     let preds = structural_preds(p, Some(&lua));
-    Checked { verdict: Verdict::Fail { sig, detail, preds, expected_out: ref_lines.clone(), expected_end: format!("{:?}", want_end) }, text, lua: Some(lua) }
+    Checked { verdict: Verdict::Fail { sig, detail, preds, expected_out: ref_lines.clone(), expected_end: format!("{:?}", want_end), alternatives: Vec::new() }, text, lua: Some(lua) }
 }
 
 pub fn record(acc: &mut Stats, engine: &str, family: &str, p: &mut Program, sample: bool) {
@@ -263,12 +281,12 @@ pub fn record(acc: &mut Stats, engine: &str, family: &str, p: &mut Program, samp
                 }
             }
         }
-        Verdict::Fail { sig, detail, preds, expected_out, expected_end } => {
+        Verdict::Fail { sig, detail, preds, expected_out, expected_end, alternatives } => {
             acc.traces_validated += 1;
             acc.outcome(&sig);
             let mut files = serde_json::Map::new();
             files.insert(MAIN.to_string(), json!(c.text));
-            acc.fail(Failure { sig, preds, detail, case: json!({"engine": engine, "family": family, "files": files, "expected_out": expected_out, "expected_end": expected_end}), size: c.text.len() });
+            acc.fail(Failure { sig, preds, detail, case: json!({"engine": engine, "family": family, "files": files, "expected_out": expected_out, "expected_end": expected_end, "alternatives": alternatives.iter().map(|(o, e)| json!({"out": o, "end": e})).collect::<Vec<_>>()}), size: c.text.len() });
         }
     }
 }
@@ -351,7 +369,7 @@ pub fn run(run: &mut Run) {
     run.bounds = bounds;
     run.assumptions = vec![
         "MiniLua stands in for lua5.3 (validated by its conformance corpus and by the repository's program tests)".into(),
-        "RefSylt decisions of DESIGN.md §3.3; programs whose meaning depends on whether an assignment reads its target before or after evaluating its right-hand side are skipped and counted".into(),
+        "RefSylt decisions of DESIGN.md §3.3; where it matters whether an assignment reads its target before or after evaluating its right-hand side, the emitted code must agree with one choice of order per assignment form (compound assignment to a variable; plain / compound assignment to a field of a value; plain / compound assignment through a longer chain): 32 reference traces".into(),
         "programs the compiler rejects, and programs whose reference trace prints NaN / multi-field blobs / functions, are skipped and counted".into(),
     ];
 }
@@ -366,7 +384,10 @@ pub fn replay(case: &serde_json::Value) -> Option<(String, String)> {
         Outcome::Ok(lua) => {
             let r = run_lua(&lua, LUA_BUDGET);
             let got_end = format!("{:?}", Some(&r.end));
-            if r.out != want_out || got_end != want_end {
+            let alt_ok = case["alternatives"].as_array().map(|a| a.iter().any(|x| x["end"].as_str() == Some(got_end.as_str()) && x["out"].as_array().map(|o| o.iter().filter_map(|l| l.as_str().map(|s| s.to_string())).collect::<Vec<_>>() == r.out).unwrap_or(false))).unwrap_or(false);
+            if alt_ok {
+                None
+            } else if r.out != want_out || got_end != want_end {
                 Some(("trace-mismatch".into(), format!("reference: out={:?} end={}\nlua:       out={:?} end={}", want_out, want_end, r.out, got_end)))
             } else {
                 None
